@@ -240,8 +240,8 @@ def run(prop, tier, seed, t0):
     bins, notes, failed = plan.bins_for(cfgs, ('rel', 'chk') if tier == 'thorough' else ('rel',))
     if failed:
         return plan.fail_build(prop, failed)
-    size = 500 if tier == 'quick' else 16000
-    nt = 8 if tier == 'quick' else 32
+    size = 500 if tier == 'quick' else 160000
+    nt = 8 if tier == 'quick' else 128
     tasks = plan.spread_tasks('vlib.props.c06', 'task', prop, seed, size, plan.plain(bins), ntasks=nt)
     m = core.run_tasks(tasks)
     return core.finish(prop, tier, seed, t0, m,
